@@ -17,8 +17,12 @@ for patch in sorted(glob.glob("/verif/benign/*.diff")):
     try:
         subprocess.run(["rsync", "-a", "--exclude", ".git", "/repo/", scratch + "/"], check=True)
         r = subprocess.run(["git", "apply", "--whitespace=nowarn", patch], cwd=scratch, capture_output=True, text=True)
-        if r.returncode:   # the tree moved on since the change was written (repairs in /repo): retry with fuzz
-            r = subprocess.run(["patch", "-p1", "-F3", "--no-backup-if-mismatch", "-i", patch], cwd=scratch, capture_output=True, text=True)
+        if r.returncode:   # the tree moved on since the change was written (repairs in /repo): three-way merge in a clone that has the base blobs
+            shutil.rmtree(scratch, ignore_errors=True)
+            subprocess.run(["git", "clone", "-q", "--shared", "/repo", scratch], check=True)
+            r = subprocess.run(["git", "apply", "--3way", "--whitespace=nowarn", patch], cwd=scratch, capture_output=True, text=True)
+            if not r.returncode and subprocess.run(["git", "diff", "--name-only", "--diff-filter=U"], cwd=scratch, capture_output=True, text=True).stdout.strip():
+                r.returncode, r.stderr = 1, "conflicts after three-way merge"
         if r.returncode:
             print(f"{os.path.basename(patch)}: PATCH DOES NOT APPLY: {r.stderr.strip()[:200]}")
             bad += 1
